@@ -62,7 +62,7 @@ def replay_batch(witnesses, tmpdir):
     if not witnesses:
         return []
     out = []
-    CH = 400
+    CH = max(8, min(400, -(-len(witnesses) // 12)))
     chunks = [witnesses[i:i + CH] for i in range(0, len(witnesses), CH)]
 
     def one(idx_chunk):
@@ -75,7 +75,7 @@ def replay_batch(witnesses, tmpdir):
             return [{"ok": None, "detail": f"replay subprocess failed: {p.stderr[-500:]}"}] * len(chunk)
         return json.load(open(fout))
 
-    with cf.ThreadPoolExecutor(max_workers=8) as ex:
+    with cf.ThreadPoolExecutor(max_workers=12) as ex:
         for r in ex.map(one, list(enumerate(chunks))):
             out += r
     return out
